@@ -263,8 +263,14 @@ package server
 //@   modifies LockManager.refCount, LockManagerWaitQueue.*, LockManagerRingQueue.*, LockManagerPriorityRingQueue.*, LockManagerPriorityRingQueueNode.*, LockQueue.*, Lock.aofTime, Lock.command, Lock.data, Lock.isAof, Lock.manager, Lock.protocol, Lock.refCount, E_LJPserver_Lock, E_Pserver_Lock, E_Pserver_LockManagerPriorityRingQueueNode, E_int32
 
 // ---- key table (lock-free; DESIGN section 3: linearizability is assumed, not proved) ----
+// sequential uniqueness of the key table (one call at a time; the lock-free interleavings stay assumed):
+// a new manager is taken from the pool only when the slow map has no live manager for the key, given the
+// table invariant that a key filed in the slow map is counted in its slot's count
 //@ func (*LockDB).GetOrNewLockManager
 //@   trusted lock-free key table: at most one live manager per key (assumed); only the result's shape is used
+//@   at call AddUint32#1 assert C01.table.unique: implies(fastValue.count >= 1 || !has(self.locks, command.LockKey), !has(self.locks, command.LockKey) || self.locks[command.LockKey] == nil || self.locks[command.LockKey].refCount == 0xffffffff)
+//@   at call AddUint32#5 assert C01.table.unique: implies(fastValue.count >= 1 || !has(self.locks, command.LockKey), !has(self.locks, command.LockKey) || self.locks[command.LockKey] == nil || self.locks[command.LockKey].refCount == 0xffffffff)
+//@   at call AddUint32#9 assert C01.table.unique: implies(fastValue.count >= 1 || !has(self.locks, command.LockKey), !has(self.locks, command.LockKey) || self.locks[command.LockKey] == nil || self.locks[command.LockKey].refCount == 0xffffffff)
 //@   ensures result != nil && result.glock != nil && result.state != nil && result.lockDb == self && result.freeLocks != nil
 //@   modifies protocol.LockDBState.KeyCount, protocol.LockDBState.SlowKeyCount, LockDB.freeLockManagerHead, LockDB.freeLockManagerTail, LockDB.managerGlockIndex, LockManager.fastKeyValue, LockManager.lockKey, LockManager.refCount, E_Pserver_LockManager, E_server_FastKeyValue, MH_mapLL16JbyteJPserver_LockManager, MV_mapLL16JbyteJPserver_LockManager
 
